@@ -585,3 +585,28 @@ fn k13_6_canon_k6() {
     assert!(r != 0);
     kani::cover!(r != 0, "rejected");
 }
+
+/// k = 5 on 7 bytes with the third-level field restricted to 4..=5 (so that a
+/// fourth-level length field of up to 63 fits in the string): lengths above 31
+/// must be rejected where they are read, never carried on and truncated.
+#[kani::proof]
+#[kani::unwind(5)]
+fn k13_6_canon_k5_wide() {
+    let data: [u8; 7] = kani::any();
+    let mut i = 0;
+    while i < 5 {
+        kani::assume(refbit(&data, i));
+        i += 1;
+    }
+    kani::assume(!refbit(&data, 5));
+    // level 2 (1 bit) = 0 -> n2 = 2; level 3 (2 bits) in {00, 01} -> n3 in {4, 5}
+    kani::assume(!refbit(&data, 6));
+    kani::assume(!refbit(&data, 7));
+    let mut it = BitIter::from(&data[..]);
+    let r = it.read_natural::<u32>(None);
+    assert!(r.is_err(), "a five-deep length prefix decoded to a number");
+    // n4 has 5 or 6 bits: values above 31 are rejected right after they are read
+    let n4_bits = if refbit(&data, 8) { 5 } else { 4 };
+    kani::cover!(n4_bits == 5 && refbit(&data, 9), "fourth-level length field above 31");
+    std::mem::forget(r);
+}
